@@ -109,7 +109,7 @@ def pure_properties_ob(v):
         prop = odml.Property(name="p%d" % i, parent=s0)
         props.append(prop)
         objs.append(prop)
-    c08.decorate_properties(v, props, [s0, s2], preset, cards=True)
+    c08.decorate_properties(v, props, [s0, s2], preset, cards=True, rich=False)
     # root and entry point follow the shard's combination (no multiplication of the path count)
     root = [doc, s0, props[0]][combo % 3]
     purity(v, root, objs, how=(combo // 3) % 3)
